@@ -22,9 +22,9 @@ type (
 	// EStrExpr is a string literal that stays an expression when it is a part of an EInterp ("a#{'b'}c"),
 	// where a plain EStr part is literal text ("abc").
 	EStrExpr struct{ S string }
-	ENull struct{}              //
-	EName struct{ Name string } //
-	EUn   struct {
+	ENull    struct{}              //
+	EName    struct{ Name string } //
+	EUn      struct {
 		Op string
 		X  Expr
 	} // not, -, +
